@@ -143,7 +143,7 @@ pub fn property(tier: Tier) -> Property {
             panic_is_violation: false,
             render: |c: &OrderCase| format!("{} perm={:?} flips={:?}", c.hist.render(), c.perm, c.flips),
             rule: "a history of insertions and unions executed twice: as generated, and in a random topological re-ordering (each insertion before its first use) with random orientation flips; compared: eq-partition of all inserted terms, live classes, per-term slot and symmetry counts; non-trivial = at least 3 unions and the two schedules order them differently; distinct by rendered case",
-            case_timeout_s: tier.pick(120, 600),
+            case_timeout_s: tier.pick(30, 120),
             exhaustive: false,
         }));
     }
